@@ -315,6 +315,16 @@ def run_enum(E, H, attrs, names_by_number, canon_name, rng, res: Result, w):
         t = E.try_value(u)
         if not isinstance(t, E) or int(t) != u or not (t == u) or t.name is not None:
             res.violation("open", [dc, "try_value", "undeclared-not-accepted-as-is"], f"{E.__name__}.try_value({u}) = {t!r} name={getattr(t, 'name', '?')!r}", w)
+        # an undeclared number is accepted wherever a member is: it can be copied, deep-copied (alone and inside
+        # containers) and pickled like one
+        for how, fn in (("copy", lambda: copy.copy(t)), ("deepcopy", lambda: copy.deepcopy(t)), ("deepcopy-in-list", lambda: copy.deepcopy([t, t])[1]),
+                        ("deepcopy-in-dict", lambda: copy.deepcopy({"k": t})["k"]), ("pickle", lambda: pickle.loads(pickle.dumps(t)))):
+            try:
+                c = fn()
+                if int(c) != u or not isinstance(c, E) or getattr(c, "name", "?") is not None:
+                    res.violation("open", [dc, how, "undeclared-number-changed"], f"{E.__name__}: {how} of try_value({u}) gives {c!r}", w)
+            except Exception as e:
+                res.violation("open", [dc, how, "undeclared-raised:" + type(e).__name__], f"{E.__name__}: {how} of try_value({u}): {e!r}", w)
     if H is not None:
         check_fields(E, H, attrs, declared + und, set(declared), res, w, dc)
         check_mixed_lists(E, H, attrs, declared, und, res, w, dc)
